@@ -1296,7 +1296,8 @@ class Prop(Check):
         if out.get("text") is None:
             return "model produced no text (fuel / dangling id)"
         if out.get("domain") is not True:
-            return "case outside the domain of the theorems (unsafe class / attribute name or open object graph)"
+            return ("case outside the domain of the theorems (unsafe class / attribute name, open object graph, class table "
+                    "not closed or ids not distinct)")
         if k == "mm" and case["renderer"] == "puml":
             if sort_legend(out["text"]) != sort_legend(obs["text"]):
                 return "PlantUML text differs: " + first_diff(sort_legend(obs["text"]), sort_legend(out["text"]))
@@ -1317,6 +1318,9 @@ class Prop(Check):
             py_nodes = [i[1] for i in g.node_stmts]
             if lean_nodes != py_nodes:
                 return f"node statements: python {py_nodes}, lean {lean_nodes}"
+            if k == "mm" and out.get("nodup_domain") is True and len(set(py_nodes)) != len(py_nodes):
+                # C29_metamodel_nodup_checked: no attribute refers to a non-match class outside the walk
+                return f"a class has two node statements although no attribute refers to OBJECT: {py_nodes}"
         return None
 
     # --------------------------------------------------------------- oracle
@@ -1619,4 +1623,14 @@ Prop.THEOREMS = [
     "Dot.C29_export_call_valid",
     "Dot.C29_export_call_checked",
     "Dot.C29_model_outside_repo_false",
+    "Dot.C29_metamodel_total",
+    "Dot.C29_metamodel_total_iff",
+    "Dot.C29_metamodel_nodes_recognised",
+    "Dot.C29_metamodel_node_labels_unique",
+    "Dot.C29_metamodel_nodes_nodup_false",
+    "Dot.C29_metamodel_nodes_nodup_partial",
+    "Dot.C29_metamodel_edges_have_nodes",
+    "Dot.C29_metamodel_nodup_checked",
+    "Dot.C29_metamodel_dot_export_checked",
+    "Dot.C29_plantuml_export_checked",
 ]
